@@ -69,3 +69,6 @@ M("c13-last-receive-close-wakes-receivers", "C13", MEM, "MemoryObjectReceiveStre
 M("c13-last-receive-close-sets-receiver-events", "C13", MEM, "MemoryObjectReceiveStream.close",
   "                for event in send_events:\n                    event.set()\n",
   "                for event in send_events:\n                    event.set()\n\n                for event in list(self._state.waiting_receivers):\n                    event.set()\n", ["R13-f"])
+
+# from seeded change C13/j (round 5)
+M("c13-finaliser-closes", "C13", MEM, "MemoryObjectSendStream.__del__", "    def __del__(self) -> None:\n        if not self._closed:", "    def __del__(self) -> None:\n        if not self._closed:\n            self.close()\n        if not self._closed:", ["R13-h"])
